@@ -27,3 +27,11 @@ if _part in ('', 'blk'):
     SUBCHECKS += c16_blk.SUBCHECKS
     RULE_PARTS.append(c16_blk.RULE)
 RULE = ' || '.join(RULE_PARTS)
+
+# the same generated cases, several at a time, checked by threads that run at the same time (core.run_overlapping): per-call state
+# kept in a place two calls share shows only there
+from harness.core import overlapped as _overlapped
+for _b, _n in (('tx-random', 'two-threads-tx'), ('blk-random', 'two-threads-blk')):
+    _base = next((s for s in SUBCHECKS if s.name == _b), None)
+    if _base is not None:
+        SUBCHECKS.append(_overlapped(_base, name=_n, k=3, n=(30, 1000)))
